@@ -75,6 +75,8 @@ func errValueOf(c *ssa.Call) ssa.Value {
 	return nil // never extracted: dropped
 }
 
+var errCheckDepth int
+
 // errChecked: the error value is compared with nil and the non-nil branch reaches a return
 // that yields a non-nil error.
 func errChecked(fn *ssa.Function, ev ssa.Value) (bool, string) {
@@ -105,6 +107,18 @@ func errChecked(fn *ssa.Function, ev ssa.Value) (bool, string) {
 				if ok2, _ := errChecked(fn, ld); ok2 {
 					return true, ""
 				}
+			}
+		}
+	}
+	// `n, err := w.Write(data); if err == nil && n != len(data) { err = io.ErrShortWrite }; if err != nil {…}`:
+	// the value is merged with another error before it is tested — follow it through the phi
+	for _, in := range *refs {
+		if ph, ok := in.(*ssa.Phi); ok && errCheckDepth < 3 {
+			errCheckDepth++
+			ok2, _ := errChecked(fn, ph)
+			errCheckDepth--
+			if ok2 {
+				return true, ""
 			}
 		}
 	}
